@@ -66,14 +66,14 @@ theorem conf_variable_time {k t} (h : Conf g_variable_time false k t) :
 
 
 theorem Time.wfVar.start {t : Time} (h : Time.wfVar t) : t.wfStart = true := by
-  cases t with
-  | fixed m => cases h
-  | variable ev off => simpa [Time.wfStart, Time.wfVar] using h
+  rcases t with m | ⟨ev, off⟩
+  · cases h
+  · simpa [Time.wfStart, Time.wfVar] using h
 
 theorem Time.wfVar.stop {t : Time} (h : Time.wfVar t) : t.wfStop = true := by
-  cases t with
-  | fixed m => cases h
-  | variable ev off => simpa [Time.wfStop, Time.wfVar] using h
+  rcases t with m | ⟨ev, off⟩
+  · cases h
+  · simpa [Time.wfStop, Time.wfVar] using h
 
 theorem conf_time {k t} (h : Conf g_time false k t) :
     ∃ x, k = [x] ∧ Good .time buildTime (fun t => t.wfStart = true) x := by
@@ -98,5 +98,15 @@ theorem conf_extended_time {k t} (h : Conf g_extended_time false k t) :
   · refine ⟨_, rfl, rfl, ?_⟩
     build_simp [buildExtendedTime, *]
     exact Safe.mono (by assumption) (fun _ => Time.wfVar.stop)
+
+
+theorem conf_timespan {k t} (h : Conf g_timespan false k t) :
+    ∃ x, k = [x] ∧ Good .timespan buildTimespan (fun s => s.wf = true) x := by
+  conf_unfold [g_timespan, g_timespan_plus, g_space] at h
+  conf_destruct [conf_time, conf_extended_time, conf_hour_minutes, conf_minute]
+  all_goals refine ⟨_, rfl, rfl, ?_⟩
+  all_goals build_simp [buildTimespan, *]
+  all_goals trace_state
+  all_goals sorry
 
 end OH.Proofs.SynTotal
